@@ -74,6 +74,60 @@ impl Filter for OracleFilter {
     }
 }
 
+/// The two template literals the template-observing oracles tell apart. They are recognised by IDENTITY (the
+/// `&'static str` the template was built from: `Template::literal(TPL_T)` hands the same slice back from
+/// `as_literal()`), not by comparing bytes: a byte comparison under a symbolic template costs CBMC minutes.
+pub static TPL_T: &'static str = "t";
+pub static TPL_U: &'static str = "u";
+/// Which template an observer saw: 1 = the literal TPL_T, 2 = the literal TPL_U, 0 = anything else.
+pub fn observe_tpl<E: ToEvent>(evt: E) -> u8 {
+    let evt = evt.to_event();
+    match evt.tpl().as_literal() {
+        Some(s) if core::ptr::eq(s.get(), TPL_T) => 1,
+        Some(s) if core::ptr::eq(s.get(), TPL_U) => 2,
+        _ => 0,
+    }
+}
+
+/// An OracleFilter that also records the template it was shown.
+pub struct TplFilter {
+    pub inner: OracleFilter,
+    pub tpl: Cell<u8>,
+}
+impl TplFilter {
+    pub fn new(answer: bool) -> Self {
+        TplFilter { inner: OracleFilter::new(answer), tpl: Cell::new(0) }
+    }
+}
+impl Filter for TplFilter {
+    fn matches<E: ToEvent>(&self, evt: E) -> bool {
+        let evt = evt.to_event();
+        self.tpl.set(observe_tpl(&evt));
+        self.inner.matches(&evt)
+    }
+}
+
+/// An OracleEmitter that also records the template it was shown.
+pub struct TplEmitter {
+    pub inner: OracleEmitter,
+    pub tpl: Cell<u8>,
+}
+impl TplEmitter {
+    pub fn new() -> Self {
+        TplEmitter { inner: OracleEmitter::new(), tpl: Cell::new(0) }
+    }
+}
+impl Emitter for TplEmitter {
+    fn emit<E: ToEvent>(&self, evt: E) {
+        let evt = evt.to_event();
+        self.tpl.set(observe_tpl(&evt));
+        self.inner.emit(&evt)
+    }
+    fn blocking_flush(&self, timeout: Duration) -> bool {
+        self.inner.blocking_flush(timeout)
+    }
+}
+
 /// An emitter that counts and records.
 pub struct OracleEmitter {
     pub calls: Cell<u32>,
